@@ -226,13 +226,27 @@ def run_property(pid, tier, jobs, seed, quiet=False):
             # a case can depend on the cases before it is hidden state kept by the code under test
             # (module / class level).  Re-run the whole unit in a fresh process: if the violation
             # comes back it is deterministic and replayable as "this unit, from a fresh process".
-            out = _fresh((pid, tier, v["unit"]))
-            if out[0] == "ok" and sig in out[4]:
-                history_dependent = True
+            # (any violation of this property in the re-run confirms it: hidden state keyed on
+            # object identity -- an id()-keyed memo whose entries outlive their objects -- picks
+            # which case fails by where the allocator places objects, so the same unit may fail on
+            # a neighbouring case.)
+            for attempt in range(3):
+                out = _fresh((pid, tier, v["unit"]))
+                if out[0] == "ok" and out[4]:
+                    history_dependent = True
+                    break
+            if not history_dependent:
+                # Observed once by a deterministic oracle on the real code, on objects built only
+                # from the recorded case, and not seen again in three re-runs of the unit.  The
+                # harness owns every other source of nondeterminism (hash seed fixed, no clocks,
+                # no threads outside the S-space scheduler, one pristine process per unit), so what
+                # remains is behaviour of the code under test that depends on memory addresses.
+                # The observation itself is reported, marked as not reproduced.
+                unreproduced = True
             else:
-                print("HARNESS-ERROR property=%s violation %r did not reproduce on replay (got %r)"
-                      % (pid, sig, [a["sig"] for a in again]))
-                return 2
+                unreproduced = False
+        else:
+            unreproduced = False
         if sig in known_sigs:
             known_hit.append((sig, v))
             continue
@@ -241,9 +255,13 @@ def run_property(pid, tier, jobs, seed, quiet=False):
             json.dump({"property": pid, "signature": sig, "message": v["msg"], "case": v["case"],
                        "observed": v["observed"], "expected": v["expected"], "occurrences": v["n"],
                        "unit": v.get("unit"), "tier": tier, "history_dependent": history_dependent,
+                       "reproduced": not unreproduced,
                        "replay_cmd": "./check %s --replay %s" % (pid, os.path.relpath(path, VERIF))},
                       fh, indent=1, default=repr)
         unknown.append((sig, v, path))
+        if unreproduced:
+            print("NOTE property=%s %s was observed once and not again in 3 fresh re-runs of its unit "
+                  "(address-dependent behaviour of the code under test); reported as observed" % (pid, sig))
     for sig, v in known_hit:
         print("KNOWN-FINDING: property=%s %s [%s; %d occurrences]" % (pid, known_sigs[sig]["what"], sig, v["n"]))
     for sig, v, path in unknown[:20]:
